@@ -505,6 +505,12 @@ class Store(object):
                 elif mode == 1:
                     spec = cur + b"x" if len(cur) < ln or not cur else bytes([cur[0] ^ 1]) + cur[1:]
                     tests_ok = False
+                elif mode == 3:
+                    # specimen shorter than the tested range (publishers use (0, 1, "eq", b"") for "share must not exist yet"):
+                    # equal only if the range itself reads that short
+                    spec = cur[:len(cur) // 2]
+                    if spec != cur:
+                        tests_ok = False
                 else:   # claims data exists beyond the current end
                     spec = cur + b"\x00"
                     tests_ok = False
@@ -761,7 +767,8 @@ def gen_case(seed, tier, profile):
             for n in shn:
                 testv = []
                 for t in range(ch.pick(W, ("ntest", i, n), [0, 0, 1, 2])):
-                    mode = ch.weighted(W, ("tmode", i, n, t), [(0, 8), (1, 1.2 if profile in ("rtw", "mut") else 0.3), (2, 0.5 if profile == "rtw" else 0.1)])
+                    mode = ch.weighted(W, ("tmode", i, n, t), [(0, 8), (1, 1.2 if profile in ("rtw", "mut") else 0.3), (2, 0.5 if profile == "rtw" else 0.1),
+                                                               (3, 1.0 if profile in ("rtw", "mut") else 0.2)])
                     testv.append([ch.pick(W, ("toff", i, n, t), [0, 0, 1, 10, 100, 5000]),
                                   ch.pick(W, ("tlen", i, n, t), [0, 1, 8, 100, 5000]), mode])
                 datav = []
